@@ -40,7 +40,7 @@ GLOBAL_OF = {  # class name -> (global key, channels per qubit)
     'Reset': ('rs', ['ALL']), 'Identity': ('mw', ['MW']), 'Hadamard': ('mw', ['MW']), 'Rx180': ('mw', ['MW']),
     'Rx90': ('mw', ['MW']), 'Rxm90': ('mw', ['MW']), 'Ry180': ('mw', ['MW']), 'Ry90': ('mw', ['MW']),
     'Rym90': ('mw', ['MW']), 'Rx180ef': ('mw', ['MW']), 'VirtualPhase': ('mw', ['MW']), 'Rphi90': ('mw', ['MW']),
-    'VirtualPark': ('fl', ['FL']), 'CPhase': ('fl', ['FL', 'MW']),
+    'VirtualPark': ('fl', ['FL']), 'CPhase': ('fl', ['FL', 'MW']), 'TwoQubitVirtualPhase': (None, ['MW']),
 }
 GKEY = {'ro': GlobalRegistryKey.READOUT, 'mw': GlobalRegistryKey.MICROWAVE, 'fl': GlobalRegistryKey.FLUX, 'rs': GlobalRegistryKey.RESET}
 
@@ -133,6 +133,7 @@ class Node:
         self.circuit: Optional[DeclarativeCircuit] = None   # for S: the DeclarativeCircuit that was built and then added
         self.rep = 1
         self.parent: Optional['Node'] = None
+        self.fields: dict = {}
 
     @property
     def is_sub(self):
@@ -155,6 +156,10 @@ class Node:
         if k[0] == 'T':
             ch = k[3] if k[1] == 'VirtualTwoQubitVacant' else 'ALL'
             return [(q, ch) for q in k[2]]
+        if k[0] in ('DET', 'OBS'):
+            return [(k[1], 'ALL')]
+        if k[0] == 'SHIFT':
+            return [(q, 'ALL') for q in k[1]]
         if k[0] == 'S':
             out = []
             for c in self.children:
@@ -191,6 +196,7 @@ class Built:
         self.all_nodes: List[Node] = []
         self.durs: Dict[str, Any] = {}
         self.share_links = False
+        self.top = None
         self.registry = DurationRegistry()
         self.reg_keys: List[str] = []
 
@@ -249,12 +255,42 @@ def _make_leaf(ctx, node: Node, circuit: DeclarativeCircuit, relation, built: Bu
         cls = getattr(co, k[1])
         return cls(*k[2], **kw)
     if k[0] == 'M':
-        return co.DispersiveMeasure(k[1], acquisition_strategy=circuit.get_acquisition_strategy(), acquisition_tag=k[2], **kw)
+        # measured against the registry of the circuit it is added to, or (library style) against the top-level circuit's registry
+        owner = built.top if (len(k) > 3 and k[3] == 'top' and built.top is not None) else circuit
+        return co.DispersiveMeasure(k[1], acquisition_strategy=owner.get_acquisition_strategy(), acquisition_tag=k[2], **kw)
     if k[0] == 'B':
         b = co.Barrier(list(k[1]))
         if relation is not None:
             b.relation_link = relation   # public setter; the constructor does not take a relation
         return b
+    if k[0] in ('DET', 'OBS', 'SHIFT'):
+        from qce_circuit.addon_stim import circuit_operations as so
+        tag = node.label().replace('.', '_')
+        if k[0] == 'SHIFT':
+            b = so.CoordinateShiftOperation(qubit_indices=list(k[1]), space_shift=k[2], time_shift=k[3])
+            if relation is not None:
+                b.relation_link = relation
+            return b
+        # record fields: symbolic integers constrained so that every lookback is negative (what stim itself requires)
+        f = {}
+        shape = k[2]
+        if 'lai' in shape:
+            f['last_acquisition_index'] = ctx.int_(f'lai_{tag}', lo=0)
+        if 'main' in shape:
+            f['main_target'] = ctx.int_(f'main_{tag}', lo=0)
+            ctx.assume(f['main_target'] <= f['last_acquisition_index'])
+        if k[0] == 'DET':
+            if 'sec' in shape:
+                f['secondary_target'] = ctx.int_(f'sec_{tag}', lo=0)
+                ctx.assume(f['secondary_target'] <= f['last_acquisition_index'])
+            if 'ref' in shape:
+                f['reference_offset'] = ctx.int_(f'ref_{tag}', lo=1)
+            if 'so' in shape:
+                f['secondary_offset'] = ctx.int_(f'so_{tag}', lo=1)
+            node.fields = f
+            return so.DetectorOperation(k[1], **f, **kw)
+        node.fields = f
+        return so.LogicalObservableOperation(k[1], **f, **kw)
     raise ValueError(k)
 
 
@@ -267,6 +303,8 @@ def build_circuit(ctx, prog: dict, built: Built, path=(), relation=None, parent:
     if rep != 1 or 'rep' in prog:
         kw['repetition_strategy'] = FixedRepetitionStrategy(rep)
     circuit = DeclarativeCircuit(**kw)
+    if built.top is None:
+        built.top = circuit
     nodes: List[Node] = []
     link_cache = {} if built.share_links else None
     for i, spec in enumerate(prog['steps']):
